@@ -63,7 +63,8 @@ _ANN_CACHE = {}
 
 
 # the documented ways of writing a value-dependent type; one per program (set by the caller)
-DEP_FLAVOURS = ("Dependent", "check-fn", "check-fn-param", "check-class", "subclass", "rebound")
+DEP_FLAVOURS = ("Dependent", "check-fn", "check-fn-param", "check-class", "subclass", "rebound", "rebound-shared")
+_SHARED_CHECKS = {}
 DEP_FLAVOUR = ["Dependent"]
 
 
@@ -73,6 +74,18 @@ def make_dependent(bound, pred, flavour):
     base = PREDS[pred]
     if flavour == "Dependent":
         return Dependent[bound, base]
+    if flavour == "rebound-shared":
+        # ONE named check per predicate, re-bound with Dependent[bound, T] wherever it is used: binding it a second time
+        # with another bound must not disturb the first use
+        t = _SHARED_CHECKS.get(pred)
+        if t is None:
+            def fns(value):
+                return base(value)
+
+            fns.__name__ = fns.__qualname__ = pred
+            fns.__annotations__ = {"value": object}
+            t = _SHARED_CHECKS[pred] = dependent_check(fns)
+        return Dependent[bound, t]
     if flavour in ("check-fn", "rebound"):
         def fn(value):
             return base(value)
